@@ -14,7 +14,7 @@ REQUIRED = ["p-norm == (sum of integrals of |f|^p)^(1/p)", "sup norm == max |ord
             "triangle inequality", "||P-P|| == 0", "sup||L(D1)-L(D2)|| <= bottleneck(D1,D2)", "grid: p-norm == integral of the "
             "interpolated samples", "grid: sup norm == max |value|"]
 RULE = ("exact landscapes from diagrams, from explicit critical points with sign changes, differences P-Q and linear combinations; "
-        "grid landscapes from diagrams and from arbitrary value arrays; one-signed, sign-crossing, nearly flat and exactly flat "
+        "grid landscapes from diagrams and from arbitrary value tables (float64, float32, int64, int32, nested lists of ints; also after -P / 2*P); one-signed, sign-crossing, nearly flat and exactly flat "
         "segments; p in {1,2,3,4,5,10} and real {1.5,2.5,pi,7.3}; scales 1e-3..1e3. non-trivial = the landscape has at least one "
         "sign-crossing segment; distinct = digest of (landscape, p)")
 ASSUMPTIONS = ["oracle: closed-form integral of |linear|^p per segment written with absolute values (Gauss-Legendre on t^p when the "
@@ -234,7 +234,20 @@ def run_case(ctx, k, rng):
                     vals = rng.integers(-4, 5, (K, num)) / 2.0 * float(rng.choice([1e-3, 1, 1, 1e3]))
                     if rng.random() < 0.3:
                         vals[:, :] = vals[:, :1]
-                    P = PLA(start=start, stop=stop, num_steps=num, values=vals, hom_deg=0)
+                    # the table may arrive in any numeric dtype or as nested lists (toy examples are typed in as integers)
+                    form = str(rng.choice(["float64", "float64", "int64", "int32", "float32", "list-of-int"]))
+                    if form in ("int64", "int32", "list-of-int"):
+                        vals = rng.integers(-4, 5, (K, num)) * int(rng.choice([1, 1, 3, 100]))
+                        if rng.random() < 0.3:
+                            vals[:, :] = vals[:, :1]
+                        vals = vals.astype(np.int32) if form == "int32" else (vals.tolist() if form == "list-of-int" else vals.astype(np.int64))
+                    elif form == "float32":
+                        vals = (rng.integers(-4, 5, (K, num)) / 2.0).astype(np.float32)
+                    style = "values:" + form
+                    ctx.note("value-table form:" + form)
+                    P = PLA(start=start, stop=stop, num_steps=num, values=np.array(vals) if form != "list-of-int" or rng.random() < 0.5 else np.array(vals, dtype=int), hom_deg=0)
+                    if rng.random() < 0.3 and form != "float64":
+                        P = -P if rng.random() < 0.5 else P * 2          # the dtype survives arithmetic
                 else:
                     def mk():
                         while True:     # a grid without interior node stores a string sentinel: not an operand
